@@ -47,6 +47,7 @@ func (c *consumption) Close() error {
 	}
 
 	c.closed = true
+	verifPoint("cclose.flagged", c)
 	c.recvQueue.Signal()
 	return nil
 }
@@ -95,7 +96,9 @@ func (c *consumption) consume() {
 	}()
 
 	for !c.closed {
+		verifPoint("consume.before-pop", c)
 		p := c.recvQueue.Pop()
+		verifPoint("consume.after-pop", c)
 		if p == nil {
 			if !c.closed {
 				c.logger.Warn("receive nil pack")
